@@ -5,6 +5,7 @@ import (
 	"fmt"
 	"sort"
 	"sync"
+	"time"
 
 	"github.com/trustbloc/sidetree-core-go/pkg/api/operation"
 	"github.com/trustbloc/sidetree-core-go/pkg/api/protocol"
@@ -77,25 +78,25 @@ type Version struct {
 	Label     string
 }
 
-func (v *Version) Version() string                                 { return v.Label }
-func (v *Version) Protocol() protocol.Protocol                     { return v.P }
-func (v *Version) TransactionProcessor() protocol.TxnProcessor     { return v.TxnProc }
-func (v *Version) OperationParser() protocol.OperationParser       { return v.ParserI }
-func (v *Version) OperationApplier() protocol.OperationApplier     { return v.Applier }
-func (v *Version) OperationHandler() protocol.OperationHandler     { return v.Handler }
-func (v *Version) OperationProvider() protocol.OperationProvider   { return v.Provider }
-func (v *Version) DocumentComposer() protocol.DocumentComposer     { return v.Composer }
-func (v *Version) DocumentValidator() protocol.DocumentValidator   { return v.Validator }
+func (v *Version) Version() string                                   { return v.Label }
+func (v *Version) Protocol() protocol.Protocol                       { return v.P }
+func (v *Version) TransactionProcessor() protocol.TxnProcessor       { return v.TxnProc }
+func (v *Version) OperationParser() protocol.OperationParser         { return v.ParserI }
+func (v *Version) OperationApplier() protocol.OperationApplier       { return v.Applier }
+func (v *Version) OperationHandler() protocol.OperationHandler       { return v.Handler }
+func (v *Version) OperationProvider() protocol.OperationProvider     { return v.Provider }
+func (v *Version) DocumentComposer() protocol.DocumentComposer       { return v.Composer }
+func (v *Version) DocumentValidator() protocol.DocumentValidator     { return v.Validator }
 func (v *Version) DocumentTransformer() protocol.DocumentTransformer { return v.Transf }
 
 // VersionOpts configures NewVersion.
 type VersionOpts struct {
-	CAS           CAS
-	Store         txnprocessor.OperationStore
-	ParserOpts    []operationparser.Option
-	TransfOpts    []didtransformer.Option
-	TxnProcOpts   []txnprocessor.Option
-	ProviderOpts  []txnprovider.Opt
+	CAS          CAS
+	Store        txnprocessor.OperationStore
+	ParserOpts   []operationparser.Option
+	TransfOpts   []didtransformer.Option
+	TxnProcOpts  []txnprocessor.Option
+	ProviderOpts []txnprovider.Opt
 }
 
 // CAS combines read and write.
@@ -307,3 +308,50 @@ func (m *MemCAS) Writes() int { m.mu.Lock(); defer m.mu.Unlock(); return m.write
 
 // Reads returns the number of read calls.
 func (m *MemCAS) Reads() int { m.mu.Lock(); defer m.mu.Unlock(); return m.reads }
+
+// ---------- no-op metrics for the document handler / REST handlers ----------
+
+// NopMetrics implements the metrics interfaces of dochandler and restapi.
+type NopMetrics struct{}
+
+func (NopMetrics) ProcessOperation(time.Duration)             {}
+func (NopMetrics) GetProtocolVersionTime(time.Duration)       {}
+func (NopMetrics) ParseOperationTime(time.Duration)           {}
+func (NopMetrics) ValidateOperationTime(time.Duration)        {}
+func (NopMetrics) DecorateOperationTime(time.Duration)        {}
+func (NopMetrics) AddUnpublishedOperationTime(time.Duration)  {}
+func (NopMetrics) AddOperationToBatchTime(time.Duration)      {}
+func (NopMetrics) GetCreateOperationResultTime(time.Duration) {}
+func (NopMetrics) HTTPCreateUpdateTime(time.Duration)         {}
+func (NopMetrics) HTTPResolveTime(time.Duration)              {}
+func (NopMetrics) CASWriteSize(string, int)                   {}
+
+// RecWriter records batch writer Add calls (dochandler's batchWriter).
+type RecWriter struct {
+	mu     sync.Mutex
+	Added  []*operation.QueuedOperation
+	Vers   []uint64
+	AddErr func(call int) error
+	calls  int
+}
+
+// Add records the operation.
+func (w *RecWriter) Add(op *operation.QueuedOperation, version uint64) error {
+	w.mu.Lock()
+	defer w.mu.Unlock()
+	w.calls++
+	if w.AddErr != nil {
+		if err := w.AddErr(w.calls); err != nil {
+			return err
+		}
+	}
+	w.Added = append(w.Added, op)
+	w.Vers = append(w.Vers, version)
+	return nil
+}
+
+// Len returns the number of recorded operations.
+func (w *RecWriter) Len() int { w.mu.Lock(); defer w.mu.Unlock(); return len(w.Added) }
+
+// Calls returns the number of Add calls (including failed ones).
+func (w *RecWriter) Calls() int { w.mu.Lock(); defer w.mu.Unlock(); return w.calls }
